@@ -73,4 +73,22 @@ example : ((hitEnums [⟨⟨2, 0⟩, ⟨9, 0⟩, 0, 0⟩, ⟨⟨4, 0⟩, ⟨8, 0
 example : ValidMatching true (sitePairs [⟨⟨2, 0⟩, ⟨9, 0⟩, 0, 0⟩, ⟨⟨4, 0⟩, ⟨8, 0⟩, 0, 0⟩, ⟨⟨5, 0⟩, ⟨5, 0⟩, 0, 0⟩]) := by
   simp [ValidMatching, sitePairs]
 
+/-- the numbers written in the HitEnum string: the M runs add up to the number of listed pairs, M and D runs
+    together to the number of reference labels spanned, M and I runs together to the number of query labels spanned -/
+theorem C03_run_totals (rev : Bool) (p : Pr) (ps : List Pr) (hv : ValidMatching rev (sitePairs (p :: ps)))
+    (hs : List Hit) (rs : List (Nat × Hit)) (h : hitEnums (p :: ps) = .ok hs) (ha : aggregate hs = .ok rs) :
+    Coma.Proofs.runTotal Hit.M rs = (p :: ps).length ∧
+    ((Coma.Proofs.runTotal Hit.M rs + Coma.Proofs.runTotal Hit.D rs : Nat) : Int) = ((p :: ps).getLast (by simp)).r.site - p.r.site + 1 ∧
+    ((Coma.Proofs.runTotal Hit.M rs + Coma.Proofs.runTotal Hit.I rs : Nat) : Int) = (((p :: ps).getLast (by simp)).q.site - p.q.site).natAbs + 1 :=
+  Coma.Proofs.cigar_run_totals rev p ps hv hs rs h ha
+
+/-- non-vacuity of `C03_run_totals`: the same reverse matching (2,9),(4,8),(5,5) is written as the runs
+    1M 1D 1M 2I 1M; M runs total 3, D runs 1, I runs 2 -/
+example : ((hitEnums [⟨⟨2, 0⟩, ⟨9, 0⟩, 0, 0⟩, ⟨⟨4, 0⟩, ⟨8, 0⟩, 0, 0⟩, ⟨⟨5, 0⟩, ⟨5, 0⟩, 0, 0⟩]).toOption.bind
+    fun hs => (aggregate hs).toOption) =
+    some [(1, Hit.M), (1, Hit.D), (1, Hit.M), (2, Hit.I), (1, Hit.M)] := by decide +kernel
+example : (Coma.Proofs.runTotal Hit.M [(1, Hit.M), (1, Hit.D), (1, Hit.M), (2, Hit.I), (1, Hit.M)],
+    Coma.Proofs.runTotal Hit.D [(1, Hit.M), (1, Hit.D), (1, Hit.M), (2, Hit.I), (1, Hit.M)],
+    Coma.Proofs.runTotal Hit.I [(1, Hit.M), (1, Hit.D), (1, Hit.M), (2, Hit.I), (1, Hit.M)]) = (3, 1, 2) := by decide +kernel
+
 end Coma.Props
